@@ -25,18 +25,28 @@ tvars == <<cell>>
 (* C19 *)
 MisuseKinds == {"param_ARGS", "param_KWARGS", "kw_ARGS", "kw_KWARGS", "kw_ARGS_reentrant", "kw_KWARGS_reentrant",
                 "param_result", "param_OLD",
-                "inv_extra_param", "inv_coroutine", "snapshot_no_post", "capture_noname_0", "capture_noname_2",
+                \* the same reserved names declared keyword-only (with a default), positional-only, or passed through **kwargs
+                "param_result_kwonly", "param_OLD_kwonly", "param_result_posonly", "param_OLD_posonly",
+                "kw_result", "kw_OLD",
+                "inv_extra_param", "inv_coroutine",
+                \* (self, *args) / (self, **kwargs) / (*args) / (self, *, k): all take something besides self;
+                \* (self, other=1) never receives anything but its default: by design no misuse
+                "inv_varargs", "inv_varkw", "inv_only_varargs", "inv_kwonly_param", "inv_defaulted_param", "snapshot_no_post", "capture_noname_0", "capture_noname_2",
                 "snapshot_dup", "error_int", "error_str", "error_nonexc_class", "error_callable_object"}
 Decorators == {"require", "ensure", "invariant", "snapshot"}
 Callables == {"function", "method", "static", "classm", "getter", "async_function", "async_method", "class"}
 
+ReservedPost == {"param_result", "param_OLD", "param_result_kwonly", "param_OLD_kwonly", "param_result_posonly",
+                 "param_OLD_posonly", "kw_result", "kw_OLD"}
+InvParamKinds == {"inv_extra_param", "inv_varargs", "inv_varkw", "inv_only_varargs", "inv_kwonly_param",
+                  "inv_defaulted_param"}
 \* on which decorator / callable a misuse can occur at all
 MisuseApplies(m, d, c) ==
   CASE m \in {"param_ARGS", "param_KWARGS", "kw_ARGS", "kw_KWARGS"} -> d \in {"require", "ensure"} /\ c \notin {"class", "getter"}
     \* the reserved keyword is passed by a call the function's own condition makes (a re-entrant, unchecked call)
     [] m \in {"kw_ARGS_reentrant", "kw_KWARGS_reentrant"} -> d \in {"require", "ensure"} /\ c \in {"function", "method", "static"}
-    [] m \in {"param_result", "param_OLD"} -> d \in {"require", "ensure"} /\ c \notin {"class", "getter"}
-    [] m \in {"inv_extra_param", "inv_coroutine"} -> d = "invariant" /\ c = "class"
+    [] m \in ReservedPost -> d \in {"require", "ensure"} /\ c \notin {"class", "getter"}
+    [] m \in InvParamKinds \cup {"inv_coroutine"} -> d = "invariant" /\ c = "class"
     [] m \in {"snapshot_no_post", "capture_noname_0", "capture_noname_2", "snapshot_dup"} -> d = "snapshot" /\ c # "class"
     [] m \in {"error_int", "error_str", "error_nonexc_class", "error_callable_object"} ->
          (d \in {"require", "ensure"} /\ c # "class") \/ (d = "invariant" /\ c = "class")
@@ -45,10 +55,11 @@ MisuseApplies(m, d, c) ==
 MisuseExpected(m, d, c) ==
   CASE m \in {"param_ARGS", "param_KWARGS"} -> [moment |-> "decorate", exc |-> "TypeError"]
     [] m \in {"kw_ARGS", "kw_KWARGS", "kw_ARGS_reentrant", "kw_KWARGS_reentrant"} -> [moment |-> "call", exc |-> "TypeError"]
-    [] m \in {"param_result", "param_OLD"} ->
+    [] m \in ReservedPost ->
          \* only a function with postconditions reserves these names
          IF d = "ensure" THEN [moment |-> "call", exc |-> "TypeError"] ELSE [moment |-> "never", exc |-> ""]
-    [] m \in {"inv_extra_param", "inv_coroutine"} -> [moment |-> "create", exc |-> "ValueError"]
+    [] m = "inv_defaulted_param" -> [moment |-> "never", exc |-> ""]
+    [] m \in (InvParamKinds \ {"inv_defaulted_param"}) \cup {"inv_coroutine"} -> [moment |-> "create", exc |-> "ValueError"]
     [] m \in {"capture_noname_0", "capture_noname_2"} -> [moment |-> "create", exc |-> "ValueError"]
     [] m \in {"snapshot_no_post", "snapshot_dup"} -> [moment |-> "decorate", exc |-> "ValueError"]
     [] m \in {"error_int", "error_str", "error_nonexc_class", "error_callable_object"} -> [moment |-> "create", exc |-> "ValueError"]
@@ -57,7 +68,8 @@ MisuseCells == {[t |-> "misuse", m |-> m, d |-> d, c |-> c] : m \in MisuseKinds,
 \* no misuse is ever silently accepted: the documented misuses of the property have a moment
 NeverSilent ==
   (cell.t = "misuse" /\ MisuseApplies(cell.m, cell.d, cell.c)) =>
-     (MisuseExpected(cell.m, cell.d, cell.c).moment = "never" <=> (cell.m \in {"param_result", "param_OLD"} /\ cell.d = "require"))
+     (MisuseExpected(cell.m, cell.d, cell.c).moment = "never" <=>
+         ((cell.m \in ReservedPost /\ cell.d = "require") \/ cell.m = "inv_defaulted_param"))
 
 -----------------------------------------------------------------------------
 (* C15 *)
@@ -83,9 +95,12 @@ ModeIndependent ==
 \* constructor shapes: "none" (inherits), "init0" = __init__(self), "init1" = __init__(self, x),
 \* "new1" = __new__(cls, x) (named-tuple like)
 CtorShapes == {"none", "init0", "init1", "new1"}
-CtorCells == {[t |-> "ctor", root |-> r, sub |-> s, inst |-> i, nargs |-> n, subinv |-> si] :
-                r \in CtorShapes, s \in CtorShapes \cup {"nosub"}, i \in {"root", "sub"}, n \in {0, 1}, si \in BOOLEAN}
-CtorApplies(c) == (c.inst = "sub" => c.sub # "nosub") /\ (c.sub = "nosub" => ~c.subinv)
+\* style: the one argument is passed positionally (K(5)) or by keyword (K(x=5)); CPython's excess-argument rule of
+\* object.__new__ / object.__init__ counts both alike, so the style must not matter
+CtorCells == {[t |-> "ctor", root |-> r, sub |-> s, inst |-> i, nargs |-> n, subinv |-> si, style |-> st] :
+                r \in CtorShapes, s \in CtorShapes \cup {"nosub"}, i \in {"root", "sub"}, n \in {0, 1}, si \in BOOLEAN,
+                st \in {"pos", "kw"}}
+CtorApplies(c) == (c.inst = "sub" => c.sub # "nosub") /\ (c.sub = "nosub" => ~c.subinv) /\ (c.style = "kw" => c.nargs = 1)
 
 \* the constructor of Python visible on the instantiated class
 InitOf(c) == IF c.inst = "sub" /\ c.sub \in {"init0", "init1"} THEN c.sub
